@@ -282,16 +282,19 @@ pub fn minimise(subj: &Subject, input: &[u8], sig: &str) -> Vec<u8> {
 }
 
 /// Mutations of the valid encodings of one type.  `stride` thins the pair cases (1 = all).
-pub fn run_mutations(subj: &Subject, pair_stride: usize, rep: &mut Report) {
+pub fn run_mutations(subj: &Subject, pair_stride: usize, shard: usize, shards: usize, rep: &mut Report) {
     let mut seen: HashSet<Vec<u8>> = HashSet::new();
     let mut pairs = 0usize;
     let mut tally = Tally::default();
-    for case in cases(&subj.schema) {
+    for (idx, case) in cases(&subj.schema).into_iter().enumerate() {
         if case.pair {
             pairs += 1;
             if pairs % pair_stride != 0 {
                 continue;
             }
+        }
+        if idx % shards != shard {
+            continue;
         }
         let bytes = ref_encode(&subj.schema, &case.value);
         // also the subject's own bytes when they differ (they are what its peers would send)
@@ -349,11 +352,15 @@ pub struct Insertion {
     pub bytes: Vec<u8>,
 }
 
-/// The valid encoding of `v` with unknown field number `u` spliced in at boundary `k`.
-pub fn insertion(schema: &Schema, v: &Val, k: usize, u: usize) -> Option<Insertion> {
+pub fn boundaries(schema: &Schema, v: &Val) -> Vec<Boundary> {
     let mut probe = RefEnc::default();
     probe.body(schema, v, 0);
-    let b = probe.boundaries.get(k)?.clone();
+    probe.boundaries
+}
+
+/// The valid encoding of `v` with unknown field number `u` spliced in at boundary `k`.
+pub fn insertion(schema: &Schema, v: &Val, bs: &[Boundary], k: usize, u: usize) -> Option<Insertion> {
+    let b = bs.get(k)?;
     let unknowns = unknown_fields(&b.declared);
     let (name, field) = unknowns.get(u)?.clone();
     let mut enc = RefEnc { insert: Some((k, &field)), boundaries: vec![] };
@@ -370,15 +377,15 @@ pub fn check_insertion(subj: &Subject, v: &Val, ins: &Insertion) -> (Obs, Option
             "value-changed".to_string(),
             format!("known fields decode to {} instead of {}", val.show(), v.show()),
         )),
-        Obs::Err(code) => Some((format!("rejected-{code}"), format!("unpack returned Err({code})"))),
+        Obs::Err(code) => Some(("rejected".to_string(), format!("unpack returned Err({code})"))),
         Obs::Panic { msg, loc } => Some(("panic".to_string(), format!("unpack panicked at {loc}: {msg}"))),
     };
     (d.obs, finding)
 }
 
-pub fn run_insertions(subj: &Subject, rep: &mut Report) {
-    for case in cases(&subj.schema) {
-        if case.pair {
+pub fn run_insertions(subj: &Subject, shard: usize, shards: usize, rep: &mut Report) {
+    for (idx, case) in cases(&subj.schema).into_iter().enumerate() {
+        if case.pair || idx % shards != shard {
             continue;
         }
         let plain = ref_encode(&subj.schema, &case.value);
@@ -391,10 +398,10 @@ pub fn run_insertions(subj: &Subject, rep: &mut Report) {
             rep.count("insertion_skipped_no_baseline", 1);
             continue;
         }
-        let mut k = 0;
-        while insertion(&subj.schema, &case.value, k, 0).is_some() {
+        let bs = boundaries(&subj.schema, &case.value);
+        for k in 0..bs.len() {
             let mut u = 0;
-            while let Some(ins) = insertion(&subj.schema, &case.value, k, u) {
+            while let Some(ins) = insertion(&subj.schema, &case.value, &bs, k, u) {
                 let (obs, finding) = check_insertion(subj, &case.value, &ins);
                 rep.evaluations += 1;
                 rep.transitions += 1;
@@ -404,6 +411,18 @@ pub fn run_insertions(subj: &Subject, rep: &mut Report) {
                 rep.states.insert(h);
                 rep.nontrivial.insert(h);
                 rep.outcomes.insert(stable_hash(&("ins", subj.schema.name.as_str(), ins.container, obs.class())));
+                // A derived enum / Result is encoded as exactly one field whose number is the
+                // discriminant: a field placed before it IS an unknown variant to this reader, and
+                // refusing it (unknown-discriminant) is the only honest answer.  The property's
+                // "unknown fields are skipped" is demanded where a message has fields of its own:
+                // struct bodies and the bodies of named variants.
+                let finding = match finding {
+                    Some((what, _)) if what == "rejected" && (ins.container == "enum" || ins.container == "result") => {
+                        rep.count("unknown_variant_refused_by_enum_or_result", 1);
+                        None
+                    }
+                    f => f,
+                };
                 if let Some((what, detail)) = finding {
                     let again = check_insertion(subj, &case.value, &ins).1;
                     if again.as_ref().map(|x| &x.0) != Some(&what) {
@@ -426,7 +445,6 @@ pub fn run_insertions(subj: &Subject, rep: &mut Report) {
                 }
                 u += 1;
             }
-            k += 1;
         }
     }
 }
